@@ -2,10 +2,11 @@
    ONLY statements; each is closed by [exact] of a lemma from Proofs/QuantileCI*.v.
    [quantile_ci] is the model of QuantileCI; for n <= 30 it is [qci_small P n x c], the greedy
    accumulation over P = the exact Binomial(n,q) PMF started at the lower mode x = [mode_x n q];
-   for n > 30 it is [qci_normal band n c l1 r1] where l1 = norm.InvCDF((1-c)/2), r1 = 2 mu - l1 and
+   for n > 30 it is [qci_normal band n c l1 r1] where l1 = norm.InvCDF(alpha), alpha = [qci_alpha c] =
+   (1-c)/2 capped at 1/2, r1 = 2 mu - l1 and
    band l r = Phi(r - 1/2) - Phi(l - 1/2) for the CDF Phi of the approximating normal. *)
 From MM Require Import Base.Num Base.GFSum Model.Choose Model.Binom Model.QuantileCI Check.C06 Check.C11
-                       Proofs.Binom Proofs.QuantileCI Proofs.QuantileCISet Proofs.QuantileCIScale Proofs.QuantileCILaws Proofs.QuantileCIExact.
+                       Proofs.Binom Proofs.QuantileCI Proofs.QuantileCISet Proofs.QuantileCIScale Proofs.QuantileCILaws Proofs.QuantileCIExact Proofs.QuantileCISetScale.
 From Coq Require Import Sorted Permutation.
 Local Open Scope Q_scope.
 
@@ -240,6 +241,43 @@ Theorem C11_comparator_set_exact : forall (n : nat) (q : Q), 0 <= q <= 1 ->
 Proof. exact comparator_outs_exact. Qed.
 Print Assumptions C11_comparator_set_exact.
 
+(* The admissible-outcome SET itself is invariant under the common factor, for ANY window 1/ieps >= 0 and
+   any list of start candidates: on masses P' == D * P (own scale sc, level c' == sc D c) it is, outcome
+   by outcome in the same order, the set on P (scale sc0, level c0 == sc0 c) — same orders, same flags,
+   Confidence times D — and the two transition graphs exist together. *)
+Theorem C11_admissible_set_scale_invariant : forall (P P' : Z -> Q) (D ieps sc0 sc : Q),
+  0 < D -> 0 <= ieps -> 0 < sc0 -> 0 < sc -> (forall k, P' k == D * P k) ->
+  forall n xs c c0 c', c0 == sc0 * c -> c' == sc * (D * c) ->
+  match qci_graph P ieps n xs, qci_graph P' ieps n xs with
+  | Some g, Some g' =>
+      Forall2 (fun r r' => r_lo r' = r_lo r /\ r_hi r' = r_hi r /\ r_amb r' = r_amb r /\ r_conf r' == D * r_conf r)
+              (qci_small_set P ieps n g sc0 c0) (qci_small_set P' ieps n g' sc c')
+  | None, None => True
+  | _, _ => False
+  end.
+Proof. exact set_scale_invariant. Qed.
+Print Assumptions C11_admissible_set_scale_invariant.
+
+(* Hence what Check/C11.v computes on the integer masses IS the admissible set of the rational
+   Binomial(n,q) PMF at level c (scale 1), for either window. *)
+Theorem C11_comparator_set_is_rational_set : forall (n : nat) (q : Q), 0 <= q <= 1 ->
+  let N := Z.of_nat n in
+  let d := Zpos (Qden q) in
+  let Pq := binom_pmf_i N q in
+  let Pw := scaled_pmf N (binom_weights N (Qnum q) (d - Qnum q)) in
+  forall e (exact : bool) c, (0 <= e)%Z -> d = Z.shiftl 1 e ->
+  let eps := if exact then 0 else ieps_border in
+  match qci_graph Pq eps N (mode_candidates N q exact), qci_graph Pw eps N (mode_candidates N q exact) with
+  | Some g, Some g' =>
+      Forall2 (fun r r' => r_lo r' = r_lo r /\ r_hi r' = r_hi r /\ r_amb r' = r_amb r /\
+                           r_conf r' == inject_Z (d ^ N) * r_conf r)
+              (qci_small_set Pq eps N g 1 c) (small_outs Pw N g' e exact c)
+  | None, None => True
+  | _, _ => False
+  end.
+Proof. exact comparator_outs_are_rational_set. Qed.
+Print Assumptions C11_comparator_set_is_rational_set.
+
 (* ---------- non-vacuity ---------- *)
 Example C11_small_example :
   let run n q c := option_map (fun r => (r_lo r, r_hi r, Qred (r_conf r), r_amb r))
@@ -316,3 +354,14 @@ Example C11_comparator_window_example :
   option_map (fun r => (r_lo r, r_hi r, Qred (r_conf r), r_amb r))
              (qci_small (binom_pmf_i 25 (1 # 2)) 25 (mode_x 25 (1 # 2)) (1 # 10)) = Some (12%Z, 13%Z, 1300075 # 8388608, true).
 Proof. vm_compute. split; [split; [reflexivity | left; reflexivity] | reflexivity]. Qed.
+
+Example C11_rational_set_example :
+  (* n = 25, q = 1/2, window on, c = 1/10: the set on the rational PMF has the same three outcomes as the
+     comparator's set on the integer masses (C11_comparator_window_example), Confidence 5200300/2^25 *)
+  let Pq := binom_pmf_i 25 (1 # 2) in
+  match qci_graph Pq ieps_border 25 (mode_candidates 25 (1 # 2) false) with
+  | Some g => map (fun r => (r_lo r, r_hi r, Qred (r_conf r), r_amb r)) (qci_small_set Pq ieps_border 25 g 1 (1 # 10)) =
+              [(12%Z, 13%Z, 1300075 # 8388608, true); (12%Z, 13%Z, 1300075 # 8388608, false); (13%Z, 14%Z, 1300075 # 8388608, false)]
+  | None => False
+  end.
+Proof. vm_compute. reflexivity. Qed.
